@@ -27,6 +27,7 @@ func init() {
 		rules.SliceShrinkByIdentity(p, r, "C02-shrink")
 		rules.AllowAllResetsMap(p, r, "C02-canon")
 		rules.QueryPathWrites(p, r, "C02-pure")
+		rules.EndpointRoles(p, r, "C02")
 		r.Assume("ANPRulesResult is an iota enumeration whose zero value is NotCaptured (re-checked: the rule looks for `verdict == 0`-valued constants)")
 	})
 }
